@@ -18,7 +18,7 @@ def run(rep, kf, tier, seed):
         tasks.append(task)
     def init_task():
         r = core.Report("C19", tier, seed)
-        engine_b.discharge(r, kf, [cp.init_contract()], "C19", tier, seed)
+        engine_b.discharge(r, kf, [cp.init_contract(), cp.hooks_contract()], "C19", tier, seed)
         return r
     tasks.append(init_task)
     for r in core.run_parallel(tasks):
@@ -27,7 +27,8 @@ def run(rep, kf, tier, seed):
         "pyvc's encoding of the str/re primitives (Engine A) and of the Python subset (Engine B)",
         "pathlib.Path `/`, mkdir, write_text and shutil.rmtree are modelled as an effect trace (what they do on the real file "
         "system is assumed); jinja2 rendering returns text",
-        "project_name_override, package_name_override, output_path and post-hooks are trusted configuration",
+        "project_name_override, package_name_override and output_path are trusted configuration; what a post hook does inside "
+        "its working directory is the user's business (the contract pins the working directory, the command text and check=True)",
     ])
     rep.assumptions.append("loops over models / enums / tags / endpoints are executed for 0-2 symbolic elements (the effect "
                            "protocol is uniform per element); convergence over histories follows from 'cleared before written' "
